@@ -18,9 +18,15 @@ Proof. reflexivity. Qed.
 Lemma alloc_chan_kern o : kern (alloc_chan o) = kern o.
 Proof. reflexivity. Qed.
 
+Lemma alloc_static_res_kern rs : forall i o, kern (alloc_static_res rs i o) = kern o.
+Proof.
+  induction rs as [|[cap c] r IH]; cbn; intros i o; [reflexivity|].
+  destruct cap; rewrite IH; reflexivity.
+Qed.
+
 Lemma init_objs_kern s n : kern (init_objs s n) = loop_init n (sc_start s).
 Proof.
-  unfold init_objs.
+  unfold init_objs. rewrite alloc_static_res_kern.
   rewrite (iter_kern alloc_chan _ alloc_chan_kern).
   rewrite (iter_kern alloc_queue _ alloc_queue_kern).
   rewrite (iter_kern alloc_lock _ alloc_lock_kern).
